@@ -694,7 +694,13 @@ class ExcelCompiler:
                         continue
 
                     cell.value = None
-                    self.evaluate(addr.address)
+                    try:
+                        self.evaluate(addr.address)
+                    except Exception:
+                        # it cannot be verified: leave it as it was found, and
+                        # not as a cell without a value which blocks resets
+                        cell.value = original_value
+                        raise
 
                     if not (original_value is None or
                             cell.close_enough(original_value, tol=tolerance)):
